@@ -450,7 +450,25 @@ def malformed_case(sess, rng):
     return run.ops
 
 
+def engine_arms_case():
+    """The arms of `QueryEngine::register_*` / `next_peer_action` for a `PutRecordToPeers` query (reachable only before
+    its first `next_action`) and for responses to a query in its PUT_VALUE / ADD_PROVIDER tracking phase."""
+    c, r = plist("find", 5, [1, 2]), plist("find", 5, [3])
+    return ["engine local=0 repl=2 par=2 timeout=10",
+            f"start puttopeers q=1 t=5 cands={c} quorum=one rec=1",
+            "fail q=1 peer=1", "sendok q=1 peer=1", "sendfail q=1 peer=2", "peerfail q=1 peer=2",
+            f"resp q=1 peer=1 kind=find peers={r}", "resp q=1 peer=1 kind=put", "resp q=1 peer=1 kind=add",
+            "resp q=1 peer=1 kind=value rec=none", "peeraction q=1 peer=1", "dump q=1", "next now=0", "next now=0",
+            "start trackadd q=2 t=5 peers=1,2 quorum=one",
+            f"resp q=2 peer=1 kind=find peers={r}", "resp q=2 peer=1 kind=add", "resp q=2 peer=1 kind=put",
+            "peeraction q=2 peer=1", "fail q=2 peer=1", "sendok q=2 peer=1", "sendfail q=2 peer=2", "next now=0", "next now=0",
+            "start trackput q=3 t=5 peers=1,2 quorum=all",
+            f"resp q=3 peer=1 kind=find peers={r}", "resp q=3 peer=1 kind=put", "peerfail q=3 peer=1", "sendok q=3 peer=2",
+            "next now=0", "next now=0"]
+
+
 def gen_cases(rng, tier):
+    yield engine_arms_case()
     sess = Session()
     if not sess.ok():
         return
